@@ -74,6 +74,8 @@ type Opts struct {
 	// the pre-initialised template file.
 	NoTemplate bool
 	URL        string
+	// RawRootID: pass RootID to the store as given (also when empty: the store then generates one).
+	RawRootID bool
 }
 
 // template builds one initialised database that fresh instances copy
@@ -105,6 +107,8 @@ func New(o Opts) (*Inst, error) {
 	file := filepath.Join(dir, "db")
 	if o.File != "" {
 		file = o.File
+		os.RemoveAll(dir)
+		dir = ""
 	} else if !o.NoTemplate && (o.RootID == "" || o.RootID == TemplateRoot) {
 		t, err := template()
 		if err != nil {
@@ -136,7 +140,7 @@ func start(o Opts, file string) (*Inst, error) {
 	bus.Token = o.AuthToken
 	stNc := bus.Connect()
 	root := o.RootID
-	if root == "" {
+	if root == "" && !o.RawRootID {
 		root = TemplateRoot
 	}
 	st, err := store.NewStore(store.Params{File: file, AuthToken: o.AuthToken, Server: url, Nc: stNc, ID: root})
